@@ -737,3 +737,16 @@ Definition yield_ok (start : nat) (cig : cigar) (p : nat) (y : cyield) : Prop :=
     (is_match op = true /\ consumed < len /\ p = rb + consumed /\ qpos = qb + consumed) \/
     (op = OpD /\ consumed < len /\ p = rb + consumed /\ qpos = qb) \/
     (op = OpI /\ consumed = 0 /\ p = rb /\ qpos = qb).
+
+(* the query index of the base aligned to reference position p, if p lies in a match operation *)
+Fixpoint qidx (cig : cigar) (rp qp p : nat) : option nat :=
+  match cig with
+  | [] => None
+  | (op, len) :: c =>
+      if is_match op && (rp <=? p) && (p <? rp + len) then Some (qp + (p - rp))
+      else qidx c (rp + ref_unit op * len) (qp + query_unit op * len) p
+  end.
+Definition query_index (cig : cigar) (start p : nat) : option nat := qidx cig start 0 p.
+
+(* a single-base substitution after normalisation *)
+Definition snv_shape (v : variant) : Prop := length (vref v) = 1 /\ length (valt v) = 1.
